@@ -299,6 +299,18 @@ TraceAgain ==
     /\ nimg' = nimg + 1
     /\ l' = l + 1 /\ UNCHANGED <<st, hist, rws, dev, wpc, sync, saves>>
 
+\* C03, the automatic snapshot: once the changes since the last snapshot have reached the threshold a snapshot
+\* is taken within a few intervals (and none before), and a restart from it brings the dataset back
+TraceAutoSnap ==
+    /\ l <= Len(Trace) /\ Trace[l].ev = "autosnap"
+    /\ LET e == Trace[l] IN
+       /\ ~("err" \in DOMAIN e)
+       /\ ~e.early
+       /\ (e.writes >= e.threshold) => e.took
+       /\ e.took => Norm(ProjStore(e.st2), e.now) = Norm(ProjStore(e.st), e.now)
+    /\ nimg' = nimg + 1
+    /\ l' = l + 1 /\ UNCHANGED <<st, hist, rws, dev, nskip, wpc, sync, saves>>
+
 TraceStuck ==
     /\ l <= Len(Trace)
     /\ LET e == Trace[l] IN
@@ -335,6 +347,10 @@ TraceStuck ==
        \/ /\ e.ev = "fop" /\ FopStep(wpc, e.op, sync)[1] = "bad"
           /\ PrintT(<<"MISMATCH-LINE", l>>)
           /\ PrintT(<<"MISMATCH-FOP", "writer/rewrite pc", wpc, "next file operation", e.op, "sync strategy", sync>>)
+       \/ /\ e.ev = "autosnap"
+          /\ PrintT(<<"MISMATCH-LINE", l>>)
+          /\ PrintT(<<"MISMATCH-NOTE", "automatic snapshot", "writes", e.writes, "threshold", e.threshold, "a snapshot before the threshold",
+                      e.early, "a snapshot after it", e.took>>)
        \/ /\ e.ev = "again"
           /\ LET a == AgainFold(ProjStore(e.base), e.cmds) IN
              ~(~("err" \in DOMAIN e) /\ a.ok /\ (a.skip \/ (Norm(a.S, e.now) = Norm(ProjStore(e.st2), e.now)
@@ -345,7 +361,7 @@ TraceStuck ==
     /\ UNCHANGED vars
 
 Next == TraceReset \/ TraceCmd \/ TraceRewrite \/ TraceFop \/ TraceOther \/ TraceImage \/ TraceAgain
-        \/ TraceSave \/ TraceSImage \/ TraceStuck
+        \/ TraceSave \/ TraceSImage \/ TraceAutoSnap \/ TraceStuck
 
 Spec == Init /\ [][Next]_vars
 
